@@ -913,6 +913,13 @@ func (x *extractor) assign(pos token.Pos, lhs []ast.Expr, tok token.Token, rhs [
 						return nil
 					}
 				}
+				// pointer alias: `elem := &(*vec)[i]`
+				if u, ok := r.(*ast.UnaryExpr); ok && u.Op == token.AND {
+					if _, isLit := ast.Unparen(u.X).(*ast.CompositeLit); !isLit {
+						x.alias[v] = x.expr(u.X)
+						return nil
+					}
+				}
 			}
 		}
 	}
